@@ -599,6 +599,7 @@ type Interp struct {
 	// exhausted" (= undecided = a failed obligation), never as a pass.  On the unchanged tree no
 	// evaluation comes within two orders of magnitude of the default.
 	Deadline time.Time
+	LastIfaceType types.Type
 	ticks    int
 	late     bool
 }
@@ -1814,6 +1815,7 @@ func (it *Interp) step(st *state, ins ssa.Instruction, depth int) {
 		}
 	case *ssa.MakeInterface:
 		st.regs[x] = it.val(st, x.X)
+		it.LastIfaceType = x.X.Type() // the dynamic type of the interface value made last (factory evaluation)
 	case *ssa.SliceToArrayPointer:
 		// (*[n]T)(s): the array at the start of the slice (panics when len(s) < n)
 		sl, ok := it.val(st, x.X).(SliceV)
